@@ -109,6 +109,23 @@ Definition valid_time_enc (s : bytes) : bool :=
   | _ => false
   end.
 
+(* skipValue (unmarshal.go): consume exactly one balanced value without decoding it *)
+Fixpoint skip_value (depth : nat) (ts : list token) : res (list token) :=
+  match ts with
+  | [] => Err EEnd
+  | tk :: rest =>
+      let k := kind tk in
+      if is_open_kind k then skip_value (S depth) rest
+      else if k =? KTypeName then skip_value depth rest
+      else if is_end_kind k then
+        match depth with
+        | O => Err EUnexpEndTok
+        | S O => Ok rest
+        | S d => skip_value d rest
+        end
+      else match depth with O => Ok rest | _ => skip_value depth rest end
+  end.
+
 Section WithParseFloat.
 (* strconv.ParseFloat(text, bits): bit pattern at that width, or failure *)
 Variable pf : bytes -> N -> option N.
@@ -129,6 +146,7 @@ Definition convert_literal (t : ty) (s : bytes) : res token :=
   | TUintptr => match parse_uint 64 s with Some n => Ok (T KPointer (VPtr n)) | None => Err EParse end
   | TF32 => match pf s 32 with Some b => Ok (T KFloat32 (VF32 b)) | None => Err EParse end
   | TF64 => match pf s 64 with Some b => Ok (T KFloat64 (VF64 b)) | None => Err EParse end
+  | TPtr _ => Ok (T KLiteral (VStr s))      (* converted once the pointer has been dereferenced *)
   | _ => Err EBadTarget
   end.
 
@@ -193,7 +211,6 @@ Fixpoint unm (fuel : nat) (o : copts) (R : registry) (t : ty) (cur : gval) (ts :
                else bind (unm f o R et (zero et) ts) (fun r => slice_loop g' et (acc ++ [fst r]) (snd r))
            end
          end) in
-    let skip_value := fun (ts : list token) => bind (unm f o R TAny (GAny None) ts) (fun r => Ok (snd r)) in
     let struct_loop :=
       (fix struct_loop (g : nat) (fs : list (bytes * bool * ty)) (depr : list bytes) (vals : list gval) (ts : list token)
          : res (list gval * list token) :=
@@ -212,7 +229,7 @@ Fixpoint unm (fuel : nat) (o : copts) (R : registry) (t : ty) (cur : gval) (ts :
                         struct_loop g' fs depr (set_nth i (fst r) vals) (snd r))
                     | None =>
                         if strict o && negb (existsb (bytes_eqb name) depr) then Err EUnknownField
-                        else bind (skip_value (snd nr)) (fun rest' => struct_loop g' fs depr vals rest')
+                        else bind (skip_value 0 (snd nr)) (fun rest' => struct_loop g' fs depr vals rest')
                     end)
            end
          end) in
